@@ -134,7 +134,7 @@ func (concEngine) Gen(prop string, seed uint64, tier string) *Spec {
 				}
 				return focusName2
 			}
-			if rng.Chance(0.04) {
+			if rng.Chance(0.07) {
 				return []string{".", ".."}[rng.Intn(2)]
 			}
 			if rng.Chance(0.05) || (spec.Knobs["dirmoves"] == 1 && rng.Chance(0.6)) {
